@@ -87,15 +87,22 @@ func newFwdStub() *fwdStub {
 func rfc3339(ns int64) string { return time.Unix(0, ns).UTC().Format(time.RFC3339) }
 
 type authScenario struct {
-	text    string
-	hm      ahmac
-	users   [][2]string
-	fwdURL  string
-	hasHMAC bool
+	secretFile string // when set, the first direct secret of /h is `file:<this>` (its content can be rotated)
+	targets    int    // number of targets of /h (1 = pull)
+	text       string
+	hm         ahmac
+	users      [][2]string
+	fwdURL     string
+	hasHMAC    bool
 }
 
 func genAuthConfig(r *rng, nowNS int64, fwdURL string, variant int) authScenario {
-	sc := authScenario{fwdURL: fwdURL}
+	return genAuthConfigIn(r, nowNS, fwdURL, variant, "")
+}
+
+// secretFile != "": the first direct secret of /h may be written as a file: reference to it
+func genAuthConfigIn(r *rng, nowNS int64, fwdURL string, variant int, secretFile string) authScenario {
+	sc := authScenario{fwdURL: fwdURL, targets: 1}
 	var b strings.Builder
 	b.WriteString("pull_api {\n  auth token raw:pulltok\n}\n")
 	hm := ahmac{SigH: "X-Signature", TsH: "X-Timestamp", NonceH: "X-Nonce", Tol: int64(300 * time.Second), Direct: []string{}, Versions: []aversion{}}
@@ -170,6 +177,12 @@ func genAuthConfig(r *rng, nowNS int64, fwdURL string, variant int) authScenario
 			raw := fmt.Sprintf("direct-%d-%x", i, r.u64()&0xffff)
 			hm.directRaw = append(hm.directRaw, raw)
 			hm.Direct = append(hm.Direct, hex.EncodeToString([]byte(raw)))
+			if i == 0 && secretFile != "" && r.chance(50) {
+				_ = os.WriteFile(secretFile, []byte(raw+"\n"), 0o600)
+				sc.secretFile = secretFile
+				fmt.Fprintf(&b, "    secret file:%s\n", secretFile)
+				continue
+			}
 			fmt.Fprintf(&b, "    secret raw:%s\n", raw)
 		}
 	}
@@ -185,7 +198,13 @@ func genAuthConfig(r *rng, nowNS int64, fwdURL string, variant int) authScenario
 		fmt.Fprintf(&b, "    tolerance %ds\n", tolS)
 	}
 	hm.Tol = int64(tolS) * sec
-	b.WriteString("  }\n  pull { path /pull/h }\n}\n")
+	if variant == 0 && r.chance(30) {
+		// a push route with two targets: one request stands for two messages
+		sc.targets = 2
+		b.WriteString("  }\n  deliver \"http://127.0.0.1:9/ha\" { timeout 1s }\n  deliver \"http://127.0.0.1:9/hb\" { timeout 1s }\n}\n")
+	} else {
+		b.WriteString("  }\n  pull { path /pull/h }\n}\n")
+	}
 	if otherFirst {
 		b.WriteString(other)
 	}
@@ -207,6 +226,20 @@ func genAuthConfig(r *rng, nowNS int64, fwdURL string, variant int) authScenario
 	sc.text = b.String()
 	sc.hm = hm
 	return sc
+}
+
+// failNthStore refuses the n-th Enqueue it sees (queue full), passing everything else through
+type failNthStore struct {
+	queue.Store
+	failAt, n int
+}
+
+func (f *failNthStore) Enqueue(env queue.Envelope) error {
+	f.n++
+	if f.n == f.failAt {
+		return queue.ErrQueueFull
+	}
+	return f.Store.Enqueue(env)
 }
 
 func signIngress(secret []byte, ts, method, p string, body []byte) string {
@@ -261,7 +294,7 @@ func cmdAuth(args []string) error {
 
 	for c := 0; c < *nc; c++ {
 		clock := &fakeClock{now: 1_700_000_000_000_000_000 + int64(r.intn(100000))*sec}
-		sc := genAuthConfig(r, clock.now, stub.srv.URL, 0)
+		sc := genAuthConfigIn(r, clock.now, stub.srv.URL, 0, filepath.Join(dir, fmt.Sprintf("hsecret%d", c)))
 		cfgPath := filepath.Join(dir, fmt.Sprintf("Hookaidofile%d", c))
 		if err := os.WriteFile(cfgPath, []byte(sc.text), 0o600); err != nil {
 			return err
@@ -282,20 +315,47 @@ func cmdAuth(args []string) error {
 			continue
 		}
 		store := queue.NewMemoryStore(queue.WithNowFunc(clock.Now))
-		emit(map[string]interface{}{"k": "acfg", "scenario": c, "hmac": sc.hm, "users": sc.users})
+		emit(map[string]interface{}{"k": "acfg", "scenario": c, "hmac": sc.hm, "users": sc.users, "targets": sc.targets})
 		type sent struct {
 			ts, nonce, sig, method, p string
 			body                      []byte
 		}
 		var history []sent
+		var retired []string // keys that were valid before a rotation
 		nonceN := 0
 		// scripted follow-ups (multi-step histories a random walk hardly ever composes): each is sent as the next hmac request,
 		// optionally after moving the clock to an absolute instant
 		type step struct {
 			setNow int64
 			s      sent
+			// reloadTol > 0: not a request but a reload that sets the tolerance to so many seconds
+			reloadTol int
 		}
 		var pending []step
+		// a reload of the configuration file as it stands, optionally with another tolerance on /h or after the content of the
+		// secret file changed
+		doReload := func(tolS int, inFlight bool) bool {
+			newTol := sc.hm.Tol
+			if tolS > 0 {
+				re := regexp.MustCompile(`(?m)^    tolerance \d+s\n`)
+				txt := re.ReplaceAllString(sc.text, "")
+				txt = strings.Replace(txt, "/h {\n  auth hmac {\n", fmt.Sprintf("/h {\n  auth hmac {\n    tolerance %ds\n", tolS), 1)
+				if err := os.WriteFile(cfgPath, []byte(txt), 0o600); err == nil {
+					sc.text = txt
+					newTol = int64(tolS) * sec
+				}
+			}
+			ok := rt.Reload(cfgPath)
+			if ok {
+				sc.hm.Tol = newTol
+			}
+			rec := map[string]interface{}{"k": "areload", "now": clock.now, "ok": ok, "tol": sc.hm.Tol, "direct": sc.hm.Direct}
+			if inFlight {
+				rec["inFlight"] = true
+			}
+			emit(rec)
+			return ok
+		}
 		for q := 0; q < *nreq; q++ {
 			var forced *sent
 			if len(pending) > 0 {
@@ -303,6 +363,10 @@ func cmdAuth(args []string) error {
 				pending = pending[1:]
 				if st.setNow > clock.now {
 					clock.now = st.setNow
+				}
+				if st.reloadTol > 0 {
+					doReload(st.reloadTol, false)
+					continue
 				}
 				forced = &st.s
 			}
@@ -336,22 +400,24 @@ func cmdAuth(args []string) error {
 			}
 			// occasionally reload the configuration: the same file, or the same file with another HMAC tolerance
 			if forced == nil && r.chance(7) {
-				newTol := sc.hm.Tol
+				tolS := 0
 				if r.chance(45) {
-					tolS := pick(r, []int{2, 5, 10, 30, 300, 420, 720})
-					re := regexp.MustCompile(`(?m)^    tolerance \d+s\n`)
-					txt := re.ReplaceAllString(sc.text, "")
-					txt = strings.Replace(txt, "/h {\n  auth hmac {\n", fmt.Sprintf("/h {\n  auth hmac {\n    tolerance %ds\n", tolS), 1)
-					if err := os.WriteFile(cfgPath, []byte(txt), 0o600); err == nil {
-						sc.text = txt
-						newTol = int64(tolS) * sec
+					tolS = pick(r, []int{2, 5, 10, 30, 300, 420, 720})
+				}
+				if sc.secretFile != "" && r.chance(40) {
+					// the key behind the file: reference is rotated; the configuration text stays as it is
+					raw := fmt.Sprintf("rotated-%x", r.u64()&0xffffff)
+					_ = os.WriteFile(sc.secretFile, []byte(raw+"\n"), 0o600)
+					oldRaw, oldHex := sc.hm.directRaw[0], sc.hm.Direct[0]
+					sc.hm.directRaw = append([]string{raw}, sc.hm.directRaw[1:]...)
+					sc.hm.Direct = append([]string{hex.EncodeToString([]byte(raw))}, sc.hm.Direct[1:]...)
+					retired = append(retired, oldRaw)
+					if !doReload(tolS, false) {
+						sc.hm.directRaw[0], sc.hm.Direct[0] = oldRaw, oldHex
 					}
+				} else {
+					doReload(tolS, false)
 				}
-				ok := rt.Reload(cfgPath)
-				if ok {
-					sc.hm.Tol = newTol
-				}
-				emit(map[string]interface{}{"k": "areload", "now": clock.now, "ok": ok, "tol": sc.hm.Tol})
 			}
 			kind := r.weighted([]int{55, 15, 20, 10}) // hmac, basic, forward, open
 			if forced != nil {
@@ -391,6 +457,8 @@ func cmdAuth(args []string) error {
 						}
 					}
 					switch {
+					case len(retired) > 0 && r.chance(15):
+						key = []byte(pick(r, retired)) // the key from before the rotation
 					case len(sc.hm.foreignRaw) > 0 && r.chance(6):
 						key = []byte(pick(r, sc.hm.foreignRaw)) // valid on another route only
 					case len(validNow) > 0 && r.chance(55):
@@ -505,7 +573,13 @@ func cmdAuth(args []string) error {
 			}
 			before := len(store.VerifSnapshot())
 			rr := httptest.NewRecorder()
-			srv := rt.IngressServer(store)
+			var useStore queue.Store = store
+			storeFail := kind == 0 && plain && forced == nil && sc.targets == 2 && r.chance(25)
+			if storeFail {
+				// the second message of the fan-out is refused by the store: the request is answered 503 after it authenticated
+				useStore = &failNthStore{Store: store, failAt: 2}
+			}
+			srv := rt.IngressServer(useStore)
 			reloaded, reloadOK := false, false
 			if reloadInFlight {
 				// a complete reload of the same file between the request fetching its authenticator and verifying with it
@@ -526,6 +600,9 @@ func cmdAuth(args []string) error {
 			if reloaded {
 				rec["reloadInFlight"] = true
 			}
+			if storeFail {
+				rec["storeFail"] = true
+			}
 			emit(rec)
 			if reloaded {
 				emit(map[string]interface{}{"k": "areload", "now": clock.now, "ok": reloadOK, "tol": sc.hm.Tol, "inFlight": true})
@@ -534,7 +611,23 @@ func cmdAuth(args []string) error {
 				h := history[len(history)-1]
 				switch {
 				case reloaded:
-					pending = append(pending, step{0, h}) // the request that straddled the reload, replayed
+					pending = append(pending, step{setNow: 0, s: h}) // the request that straddled the reload, replayed
+				case storeFail:
+					pending = append(pending, step{setNow: 0, s: h}) // the request whose fan-out was only partly stored, sent again
+				case rr.Code == 202 && sc.hm.Tol <= 30*sec && r.chance(25):
+					// the window of an accepted request closes and another request purges it; then the tolerance is raised twice in
+					// a row (the second shortly after the first), so far that the first request's timestamp passes again; replay
+					var T int64
+					fmt.Sscan(h.ts, &T)
+					closed := (T+sc.hm.Tol/sec)*sec + sec
+					other := sent{ts: fmt.Sprint(closed / sec), nonce: fmt.Sprintf("purge%d-%d", c, nonceN), method: "POST", p: "/h", body: []byte("{}")}
+					key := []byte("wrong-key")
+					if len(sc.hm.directRaw) > 0 {
+						key = []byte(sc.hm.directRaw[0])
+					}
+					other.sig = signIngress(key, other.ts, "POST", "/h", other.body)
+					pending = append(pending, step{setNow: closed, s: other}, step{setNow: closed + sec, reloadTol: 300}, step{setNow: closed + 2*sec, reloadTol: 720},
+						step{setNow: closed + 3*sec, s: h})
 				case rr.Code == 202 && r.chance(20):
 					// the nonce of an accepted request re-used by a request that is refused anyway (bad signature, or a fresh
 					// signature) and carries an older, still tolerated timestamp; then the accepted request is replayed after the
@@ -550,7 +643,7 @@ func cmdAuth(args []string) error {
 							key = []byte(sc.hm.directRaw[0])
 						}
 						poison.sig = signIngress(key, poison.ts, h.method, path.Clean(h.p), h.body)
-						pending = append(pending, step{0, poison}, step{(tp+tolS)*sec + pick(r, []int64{1, sec / 2, sec}), h})
+						pending = append(pending, step{setNow: 0, s: poison}, step{setNow: (tp+tolS)*sec + pick(r, []int64{1, sec / 2, sec}), s: h})
 					}
 				}
 			}
